@@ -259,13 +259,40 @@ def switch_cases(sw):
                 groups.append({"labels": prev_labels, "stmts": prev_stmts, "falls": falls})
                 cur_labels, cur_stmts = [], []
             cur_labels = cur_labels + labels
-            if sub is not None and sub.get("k") != "NullStmt":
+            if sub is not None:
                 cur_stmts.append(sub)
         else:
             cur_stmts.append(s)
     if cur_labels:
         groups.append({"labels": cur_labels, "stmts": cur_stmts, "falls": False})
     return groups
+
+
+def switch_handles(sw, v):
+    """Does the switch have an explicit case for value v that does more than drop into the default group?
+    `case A: case B: default: stmt` (labels sharing one statement) counts as explicit handling of A and B;
+    `case A: ; default: stmt` (empty statement, then fall-through into default) does not."""
+    groups = switch_cases(sw)
+    for gi, g in enumerate(groups):
+        if not any(l["lo"] is not None and l["lo"] <= v <= l["hi"] for l in g["labels"]):
+            continue
+        j = gi
+        while True:
+            gj = groups[j]
+            real = [s for s in gj["stmts"] if s.get("k") != "NullStmt"]
+            if real:
+                # statements of its own: handled, unless this is a group it merely fell into that carries `default`
+                if j != gi and any(l["en"] == "default" for l in gj["labels"]):
+                    return False
+                return True
+            if any(l["en"] == "default" for l in gj["labels"]) and j != gi:
+                return False
+            if any(l["en"] == "default" for l in gj["labels"]) and j == gi:
+                return True
+            if not gj.get("falls", True) or j + 1 >= len(groups):
+                return True
+            j += 1
+    return False
 
 
 def _ends_with_jump(stmts):
@@ -872,3 +899,38 @@ def guard_texts(fn, node):
                     labs.append(ln.get("en") or str(ln.get("lo")))
             out.append(("in", expr_text(strip(g["cond"])), tuple(sorted(labs))))
     return out
+
+
+def init_value(n):
+    """constant initialiser AST -> python value (ints, lists for arrays/records, str for string literals)"""
+    if n is None:
+        return None
+    k = n.get("k")
+    if k == "InitListExpr":
+        return [init_value(c) for c in kids(n)]
+    if k == "ImplicitValueInitExpr":
+        return 0
+    if "v" in n:
+        return n["v"]
+    if k == "StringLiteral":
+        return n.get("s")
+    if k == "FloatingLiteral":
+        return n.get("fv")
+    if k in CASTS or k in ("CompoundLiteralExpr",):
+        c = kids(n)
+        return init_value(c[0]) if c else None
+    if k == "UnaryOperator" and n.get("op") == "-":
+        v = init_value(n["c"][0])
+        return -v if isinstance(v, (int, float)) else None
+    if k == "DeclRefExpr":
+        return {"ref": n.get("n")}
+    return None
+
+
+def global_value(tu, name, func=None):
+    g = tu.global_var(name, func)
+    if g is None:
+        return None
+    if "val" in g:
+        return g["val"]
+    return init_value(g.get("init"))
